@@ -430,7 +430,7 @@ fn cmd_run(args: &[String]) -> i32 {
             prog = back;
         }
         if perturb && (i == from || i % 64 == 0) {
-            perturb_process(prng::mix(seed, "perturb", i));
+            perturb_process(prng::mix(seed, "perturb", i), false);
         }
         let info = run_guarded(&prop, &prog);
         if want_hashes {
@@ -505,18 +505,21 @@ fn cmd_run(args: &[String]) -> i32 {
 
 /// Shifts process-global identity: module ids, sleep ids and message counters (by running unrelated
 /// simulations first) and heap addresses (by leaking a prelude), both sized from the seed.
-fn perturb_process(seed: u64) {
+/// `all_kinds`: replay mode - every kind of earlier simulation occurs at least once (a crash on this thread, a crash on
+/// another thread, ordinary runs), so that a recorded cross-process difference does not depend on the batch it was found in
+fn perturb_process(seed: u64, all_kinds: bool) {
     let mut rng = prng::Rng::new(seed);
-    let sims = rng.below(20);
-    for _ in 0..sims {
+    let sims = if all_kinds { 8 } else { rng.below(20) };
+    for k in 0..sims {
         let mut p = net_gen::gen_c04(&mut rng, Tier::Quick);
         // some of the earlier simulations crash: a processing element panics, the panic unwinds out of `run()` and the
         // simulation is dropped during the unwinding - on this thread or on another one
-        let crash = rng.chance(1, 4);
+        let crash = if all_kinds { k == 2 || k == 5 } else { rng.chance(1, 4) };
         if crash {
             p.gstack.push(net::PeSpec { mode: 4, m: 1, r: 0, send_hook: 0, gate: 0 });
         }
-        if crash && rng.chance(1, 2) {
+        let other_thread = if all_kinds { k == 5 } else { rng.chance(1, 2) };
+        if crash && other_thread {
             let _ = std::thread::spawn(move || {
                 let _ = net::run_net(&p, &net::RunOpts::default());
             })
@@ -535,7 +538,7 @@ fn perturb_process(seed: u64) {
 fn cmd_exec(args: &[String]) -> i32 {
     let prop = arg(args, "--prop").expect("--prop").to_string();
     if args.iter().any(|a| a == "--perturb") {
-        perturb_process(0xC04);
+        perturb_process(0xC04, true);
     }
     let mut s = String::new();
     std::io::stdin().read_to_string(&mut s).expect("stdin");
